@@ -12,6 +12,8 @@ import tempfile
 
 F = r'[-+]?\d\.\d+e[-+]\d+'
 GROUP = re.compile(rf'^({F}) - ({F})\t({F})\t({F})(\t.*)?$')
+MESH = re.compile(rf'^(\t \((\d+),(\d+),(\d+)\)\t )({F})\t({F})\s*$')
+ERANGE = re.compile(rf'^Energy range \(in MeV\): ({F}) - ({F})\s*$')
 INTEG = re.compile(rf'^(number of batches used: \d+\t)({F})\t({F})\s*$')
 
 
@@ -67,6 +69,14 @@ def rewrite(text, reverse, negatives=True, start=0):
             out.append(f'{m.group(1)}{fmt(score)}\t{fmt(sigma)}')
             i += 1
             continue
+        m = MESH.match(ln)
+        if m:
+            k += 1
+            score = (1 + k) * 1.000001e-02 * (-1 if negatives and k % 7 == 3 else 1)
+            sigma = 0.5 + (k % 97) * 0.25
+            out.append(f'{m.group(1)}{fmt(score)}\t{fmt(sigma)}')
+            i += 1
+            continue
         out.append(ln)
         i += 1
     return '\n'.join(out), k - start
@@ -77,17 +87,30 @@ def printed(block):
     tags = {}
     ri, si = -1, -1
     last_group_score = None
+    erange = None
     for ln in block.split('\n'):
         if ln.startswith('RESPONSE FUNCTION :'):
             ri += 1
             si = -1
         elif 'scoring mode :' in ln:
             si += 1
+            erange = None
+        elif 'ENERGY INTEGRATED RESULTS' in ln:
+            erange = None          # what follows is integrated over the energy ranges printed above
         m = GROUP.match(ln)
         if m:
             e1, e2, sc, sg = (float(m.group(n)) for n in (1, 2, 3, 4))
             tags.setdefault((ri, si), {'groups': [], 'integrated': []})['groups'].append((min(e1, e2), max(e1, e2), sc, sg))
             last_group_score = ((ri, si), sc)
+            continue
+        m = ERANGE.match(ln)
+        if m:
+            erange = (min(float(m.group(1)), float(m.group(2))), max(float(m.group(1)), float(m.group(2))))
+            continue
+        m = MESH.match(ln)
+        if m:
+            tags.setdefault((ri, si), {'groups': [], 'integrated': []}).setdefault('mesh', []).append(
+                ((int(m.group(2)), int(m.group(3)), int(m.group(4))), erange, float(m.group(5)), float(m.group(6))))
             continue
         m = INTEG.match(ln)
         if m:
@@ -149,6 +172,22 @@ def check_edition(res, block):
                 ncells = int(np.count_nonzero(~np.isnan(d.value)))
                 if ncells != hit_count[id(d)]:
                     probs.append(f'{key}: {hit_count[id(d)]} printed group line(s) were read into a spectrum of {ncells} filled cell(s)')
+        for (cell, er, sc, sg) in pr.get('mesh', []):
+            nchecked += 1
+            hits = [(d, idx) for d in dss for idx in zip(*np.where(d.value == sc))]
+            if len(hits) != 1:
+                probs.append(f'{key}: the tally {sc!r} printed for the mesh cell {cell} is found {len(hits)} time(s) in the results of that response / zone')
+                continue
+            d, idx = hits[0]
+            if not np.isclose(d.error[idx], sc * sg * 0.01, rtol=1e-12, atol=0.0):
+                probs.append(f'{key}: mesh cell {cell}: error {d.error[idx]!r} for tally {sc!r} with sigma {sg!r} %')
+            if tuple(int(x) for x in idx[:3]) != cell:
+                probs.append(f'{key}: the tally printed for the mesh cell {cell} is attached to the cell {tuple(int(x) for x in idx[:3])}')
+            eb = d.bins.get('e')
+            if er is not None and eb is not None and len(eb) == d.value.shape[3] + 1 and not (eb[idx[3]] == er[0] and eb[idx[3] + 1] == er[1]):
+                probs.append(f'{key}: the tally of the mesh cell {cell} printed under the energy range {er} is attached to the energy bin {(eb[idx[3]], eb[idx[3] + 1])}')
+            if len(probs) > 6:
+                break
         for (sc, sg, anchor) in pr['integrated']:
             nchecked += 1
             cands = [d for it in its if isinstance(it.get('results'), dict) for k3, d in it['results'].items() if isinstance(d, Dataset) and 'integrated' in k3]
@@ -226,9 +265,9 @@ def sweep(tier, seed):
             fails.extend(fl)
             known_seen.extend(ks)
     return {'name': 'rewritten-listings-native', 'evaluations': n, 'distinct': n, 'failures': fails[:10], 'exhaustive': False, 'known_seen_inputs': known_seen[:3],
-            'bound': f'{len(files)} shipped listings that parse; every energy-group line and every "number of batches used" line re-written with pairwise distinct scores of either sign '
+            'bound': f'{len(files)} shipped listings that parse; every energy-group line, every mesh-cell line and every "number of batches used" line re-written with pairwise distinct scores of either sign '
                      '(no zero) and sigma% in 0.5 .. 24.5' + ('' if tier == 'quick' else ', 9 number sequences') + '; tables as printed and with the order of their lines reversed; every edition parsed; every re-written number looked up '
-                     '(value, error = value * sigma% / 100, energy bin = printed boundaries, response_index / score_index of the place of printing); meshes, keff, '
+                     '(value, error = value * sigma% / 100, energy bin = printed boundaries / energy range, mesh cell indices, response_index / score_index of the place of printing); keff, '
                      'perturbation, Green bands and other layouts, and Apollo3 HDF5 files are NOT covered',
             'samples': [{'listing': 'tests/eponine/tripoli4/data/vov.d.res.ceav5', 'tables_printed_in_reverse_order': True}]}
 
